@@ -69,7 +69,7 @@ def main():
         "setup_cmd": "bin/setup",
         "hooks": {
             "guard": "none in source: every seam is installed with `go build -overlay` generated at check time by /verif/simgen from /repo's current tree; without that flag the tree is byte-for-byte the shipped one",
-            "enable": "bin/check runs simgen (go/ast rewrite of time/go/sync/rand uses into the overlay-only package verifseam, ipfs stub, export shims, GOROOT overlays: runtime map order + goroutine id, crypto/internal/randutil.MaybeReadByte pinned; go-cache on the virtual clock; Blockchain.VerifProposeBlockWithTxs derived from the current ProposeBlock source) and builds sim/cmd/vcheck with -overlay (GODEBUG=goindex=0)",
+            "enable": "bin/check runs simgen (go/ast rewrite of time/go/sync/rand uses into the overlay-only package verifseam, ipfs stub, export shims, GOROOT overlays: runtime map order + goroutine id, crypto/internal/randutil.MaybeReadByte pinned; go-cache on the virtual clock; Blockchain.VerifProposeBlockWithTxs derived from the current ProposeBlock source; the shard size limits of common/sharding.go turned into variables with a generated setter) and builds sim/cmd/vcheck with -overlay (GODEBUG=goindex=0)",
             "baseline_off_cmd": "cd /repo && go test -json -vet=off -count=1 -timeout 25m ./...",
             "source_commits": [],
             "add_only": True,
